@@ -259,8 +259,11 @@ type TaskMaster struct {
 	// Executing tasks
 	tasks map[string]*ExecutingTask
 
-	// DeleteHooks for tasks
+	// DeleteHooks for tasks, guarded by hooksMu.
+	// The nodes of a task register their hooks from their own goroutines,
+	// which a stop waits for while it holds mu.
 	deleteHooks map[string][]deleteHook
+	hooksMu     sync.Mutex
 
 	diag Diagnostic
 
@@ -631,15 +634,17 @@ func (tm *TaskMaster) stopTask(id string) (err error) {
 // internal deleteTask function. The caller must have acquired
 // the lock in order to call this function
 func (tm *TaskMaster) deleteTask(id string) {
+	tm.hooksMu.Lock()
 	hooks := tm.deleteHooks[id]
+	tm.hooksMu.Unlock()
 	for _, deleteHook := range hooks {
 		deleteHook(tm)
 	}
 }
 
 func (tm *TaskMaster) registerDeleteHookForTask(id string, hook deleteHook) {
-	tm.mu.Lock()
-	defer tm.mu.Unlock()
+	tm.hooksMu.Lock()
+	defer tm.hooksMu.Unlock()
 	tm.deleteHooks[id] = append(tm.deleteHooks[id], hook)
 }
 
